@@ -25,6 +25,7 @@ func propC19(a *Analysis, r *Registry) {
 	X := b.X
 	S := X.S
 	const rB = "B-C19 CHK"
+	sweepC19(a, r, b)
 
 	// the dominator tree's accessors read the tables Dom fills
 	defer func() {
